@@ -24,7 +24,7 @@ CHECKS = {
     "C01": (
         True,
         "Lean 4 model of Field/Line text rendering and parsing with exact IEEE/decimal arithmetic (round, format, float(), int(), strftime/strptime) + decidable Spec.C01.holds evaluated on model and implementation + differential correspondence on structured layouts and float boundary families",
-        "Spec.C01.holds states the round trip (read-back = canonical values, re-written text identical, floats in the configured notation/separator, half-unit accuracy in exact arithmetic under |x|*10^D<2^51, maximal decimals). Theorems: per-kind render/parse laws for integers, literals, dates (strptime after strftime = truncation to the format, all regex alternatives and backtracking: Proofs/DateLaw*.lean) and missing values; layout theorem (every span of a disjoint layout holds its field's rendering); Props.C01.readBack_of_inDomain (every layout/value list admitted by the decidable domain reads back to the canonical form: integers, literals, floats, dates, missing) Props.C01.main_nofloat (the whole statement, stability included, for layouts without non-missing floats) Props.C01.law_flt_F_gen (full law, stability included, for every finite double, the largest one included, in every F-notation field in which it fits, the decimals-dropping loop included (round(y,d) of a finite double never overflows for d>=0: Proofs.FloatLoop.pyRound_some_any): Proofs/Nearest.lean proves that the model's binary rounding is optimal and that round(x,d) keeps the d-decimal rounding of x, Proofs/FloatText.lean that float() of the printed text is round(x,d), Proofs/FloatLoop.lean that the value read back is written with the same number of decimals) Props.C01.main_F (read-back and stability of whole lines with such floats) and Props.C01.main_F_full (the whole of Spec.C01.holds for those lines, the dialect / half-unit accuracy / maximal-decimals clauses included: Proofs/FloatClauses.lean). Props.C01.law_flt_E / main_FE (Props/C01E.lean: the same full law and line-level read-back + stability for E-notation fields of up to twelve decimals and every double of magnitude 10^(decimals-322) or more (Proofs.FloatE.wfE: every normal double and the subnormal ones whose last emitted digit has place value 10^-322 or more): Proofs/FloorLog10.lean proves floorLog10 exact, Proofs/FloatE.lean that printing the rounded value at its own decimal exponent reproduces the digits it was rounded to, also when rounding crosses a power of ten). Props.C01.main_FE_full: the whole of Spec.C01.holds for layouts with floats in either notation (Proofs/FloatEClauses.lean: dialect and half-unit accuracy of the E-notation text). E notation for non-zero values below 10^(decimals-322) (deep subnormals; the statement is false at the eight K2 values, Props.C01.subnormal_E_counterexample) is evaluated per case against the exact model and the real code.",
+        "Spec.C01.holds states the round trip (read-back = canonical values, re-written text identical, floats in the configured notation/separator, half-unit accuracy in exact arithmetic under |x|*10^D<2^51, maximal decimals). Theorems: per-kind render/parse laws for integers, literals, dates (strptime after strftime = truncation to the format, all regex alternatives and backtracking: Proofs/DateLaw*.lean) and missing values; layout theorem (every span of a disjoint layout holds its field's rendering); Props.C01.readBack_of_inDomain (every layout/value list admitted by the decidable domain reads back to the canonical form: integers, literals, floats, dates, missing) Props.C01.main_nofloat (the whole statement, stability included, for layouts without non-missing floats) Props.C01.law_flt_F_gen (full law, stability included, for every finite double, the largest one included, in every F-notation field in which it fits, the decimals-dropping loop included (round(y,d) of a finite double never overflows for d>=0: Proofs.FloatLoop.pyRound_some_any): Proofs/Nearest.lean proves that the model's binary rounding is optimal and that round(x,d) keeps the d-decimal rounding of x, Proofs/FloatText.lean that float() of the printed text is round(x,d), Proofs/FloatLoop.lean that the value read back is written with the same number of decimals) Props.C01.main_F (read-back and stability of whole lines with such floats) and Props.C01.main_F_full (the whole of Spec.C01.holds for those lines, the dialect / half-unit accuracy / maximal-decimals clauses included: Proofs/FloatClauses.lean). Props.C01.law_flt_E / main_FE (Props/C01E.lean: the same full law and line-level read-back + stability for E-notation fields of up to twelve decimals and EVERY finite double in normal form (Props.C01.FloatFB / floatFB_all: the band-inclusive range wfB = magnitude 10^(decimals-323) or more, zero, and the deep subnormal range wfFine where round() returns its argument and the decimal grid is finer than half a subnormal step, Proofs.FloatE.sub_fine): Proofs/FloorLog10.lean proves floorLog10 exact, Proofs/FloatE.lean that printing the rounded value at its own decimal exponent reproduces the digits it was rounded to, also when rounding crosses a power of ten). Props.C01.main_FE_full: the whole of Spec.C01.holds for layouts with floats in either notation (Proofs/FloatEClauses.lean: dialect and half-unit accuracy of the E-notation text). The half-unit clause for E-notation values in the one decade 10^(decimals-323) <= |x| < 10^(decimals-322) (false at the eight K2 values: Props.C01.subnormal_E_counterexample, k2_in_band) is evaluated per case against the exact model and the real code; everything else about those values (read-back, stability, shape) is a theorem.",
         'Trusted: Lean kernel; hand-written model lean/Cfi/{Text,PyInt,Dbl,Date,Field,Line}.lean validated against CPython on every case; float stability / accuracy for all doubles is checked by correspondence only (named hypothesis RenderLaw, never an axiom).',
         "6/C01",
     ),
@@ -73,7 +73,7 @@ CHECKS = {
     "C06": (
         True,
         'Lean 4 proof of the projection property on the model + decidable statement evaluated on model and implementation + differential correspondence on perturbed contents',
-        'Theorems Props.C06.main (for every text x, W(R(x)) is a fixed point of read-then-write and the lines matching no register are the same in x and y, in order — from record-level stability of the typed records of x), recStable_of_laws (record stability from the C01 per-field laws) main_int_lit, main_regs_F and main_regs_FE (no premise about the records left for files of integer / literal / float registers, floats in F notation and, Props/C06E.lean, in E notation with up to twelve decimals and values that are zero or at least 10^(decimals-322) in magnitude). Props.C06.main_regs_all (Props/C06D.lean) adds date fields. Records holding floats outside the ranges of the C01 float laws: the premise is evaluated per case by the exact model; the statement is evaluated on every generated text on model and implementation, in memory and through paths.',
+        'Theorems Props.C06.main (for every text x, W(R(x)) is a fixed point of read-then-write and the lines matching no register are the same in x and y, in order — from record-level stability of the typed records of x), recStable_of_laws (record stability from the C01 per-field laws) main_int_lit, main_regs_F and main_regs_FE (no premise about the records left for files of integer / literal / float registers, floats in F notation and, Props/C06E.lean, in E notation with up to twelve decimals and any finite value in normal form). Props.C06.main_regs_all (Props/C06D.lean) adds date fields. Records holding floats outside the ranges of the C01 float laws: the premise is evaluated per case by the exact model; the statement is evaluated on every generated text on model and implementation, in memory and through paths.',
         "Trusted: Lean kernel; model; representability and unambiguity are decided by Lean predicates.",
         "6/C06",
     ),
